@@ -1,8 +1,8 @@
 /-
   C20, part T: `plugins.ThreadManager.acquire_thread / release_thread / stop` — any number of
   request threads (each with its own finite script of acquire/release calls) against a thread that
-  calls `stop()` (= `graceful`) a number of times.  Core Lean only; one model step = one traced
-  source line.  Single dict operations (`in`, `len`, `d[k] = v`, `pop`, `clear`, `list(d)`, one
+  calls `stop()` (= `graceful`) a number of times.  Core Lean only; one model step = one source line
+  at the time of writing (tie to the live code: trace inclusion modulo stuttering over `obsStr`).  Single dict operations (`in`, `len`, `d[k] = v`, `pop`, `clear`, `list(d)`, one
   `next()` of the items iterator) are atomic (GIL).
 
   Two protocols (`Mode`):
